@@ -68,14 +68,14 @@ def _digits_of(lo, hi):
 
 
 @harness('C05', params=INT_GRID, functions=FUNCS, label=lambda p: p[0],
-         bounds={'text': '1..digits(type)+2 characters over the alphabet 0-9 + - . e x (every string)'})
+         bounds={'text': '1..digits(type)+2 characters over the alphabet 0-9 + - . e x _ (every string)'})
 def xml_int_text(sx, p):
     """XML text path: accepted <=> xs:integer literal within the declared bounds"""
     name, T, lo, hi = p
     maxlen = min(_digits_of(lo, hi) + 2, 22)
     lens = [1, 2, 3, maxlen - 1, maxlen] if sx.tier == 'quick' else list(range(1, maxlen + 1))
     L = sx.choose('len', sorted(set(x for x in lens if 1 <= x <= maxlen)))
-    text = sx.text('t', L, alphabet='0123456789+-.ex')
+    text = sx.text('t', L, alphabet='0123456789+-.ex_')
     elt = mk_element(sx, '{tns}v', text=text)
     out = run_soft(lambda: XML.from_element(CTX, T, elt))
     lit, want = int_literal(sx, text)
@@ -166,12 +166,12 @@ def _str_ok(sx, text, lo, hi, pattern, values):
                     'spyne.model.primitive.string.Unicode.validate_native',
                     'spyne.model.primitive._base.re_match_with_span',
                     'spyne.model._base.SimpleModel.validate_native'],
-         bounds={'text': '1..6 characters over the alphabet a b c d 0 9 (every string)'})
+         bounds={'text': '0..6 characters over the alphabet a b c d 0 9 (every string; the empty one as an empty element)'})
 def xml_str_text(sx, p):
     name, T, lo, hi, pattern, values = p
-    L = sx.choose('len', [1, 2, 3, 4, 5] if sx.tier == 'quick' else [1, 2, 3, 4, 5, 6])
-    text = sx.text('t', L, alphabet='abcd09')
-    elt = mk_element(sx, '{tns}v', text=text)
+    L = sx.choose('len', [0, 1, 2, 3, 4, 5] if sx.tier == 'quick' else [0, 1, 2, 3, 4, 5, 6])
+    text = sx.text('t', L, alphabet='abcd09') if L else u''
+    elt = mk_element(sx, '{tns}v', text=text if L else None)       # an empty element carries the empty string
     out = run_soft(lambda: XML.from_element(CTX, T, elt))
     ok = _str_ok(sx, text, lo, hi, pattern, values)
     sx.observe('accepted', out.accepted)
@@ -195,6 +195,29 @@ def json_str_native(sx, p):
     if out.accepted:
         return sx.And(ok, sx.eq(out.value, text))
     return sx.And(sx.Not(ok), is_client_validation_fault(out.fault))
+
+
+@harness('C05', params=['xml', 'http'], functions=['spyne.protocol._inbase.InProtocolBase.boolean_from_bytes',
+                                                   'spyne.protocol.xml.XmlDocument.base_from_element'],
+         bounds={'text': '1..5 characters over the alphabet t r u e f a l s 0 1 T x (every string)'})
+def bool_text(sx, fam):
+    """a boolean is true / false / 1 / 0: any other text is refused, not read as false (letter case is not judged: accepting
+    TRUE is lenient, reading it as anything but true would be wrong)"""
+    L = sx.choose('len', [1, 2, 4, 5])
+    text = sx.text('t', L, alphabet='truefals01Tx')
+    if fam == 'xml':
+        elt = mk_element(sx, '{tns}v', text=text)
+        out = run_soft(lambda: XML.from_element(CTX, Boolean, elt))
+    else:
+        out = run_soft(lambda: HTTP.from_unicode(Boolean, text))
+    low = text.lower()
+    is_true = sx.Or(sx.eq(low, 'true'), sx.eq(low, '1'))
+    is_false = sx.Or(sx.eq(low, 'false'), sx.eq(low, '0'))
+    strict = sx.Or(sx.eq(text, 'true'), sx.eq(text, '1'), sx.eq(text, 'false'), sx.eq(text, '0'))
+    sx.observe('accepted', out.accepted)
+    if out.accepted:
+        return sx.And(sx.Or(is_true, is_false), sx.is_bool(out.value), sx.eq(out.value, is_true))
+    return sx.And(sx.Not(strict), is_client_validation_fault(out.fault))
 
 
 # ---------------------------------------------------------------- xsi:nil / nullability
